@@ -104,6 +104,7 @@ var pfOrder = []struct{ key, lean string }{
 	{"Spaces", "parsSpaces"}, {"Word/func0", "parsWord"},
 	{"EOL", "parsEOL"}, {"calculateLineLength", "parsCalculateLineLength"}, {"Line", "parsLine"},
 	{"untilByte/func0", "parsUntilByte"}, {"untilFilter/func0", "parsUntilFilter"},
+	{"Until/func0", "parsUntil"}, // the `default:` case of Until: a parser argument
 	{"convertInt", "parsConvertInt"}, {"Int", "parsInt"},
 	{"Parser.Map/func0", "parsMap"}, {"Dry/func0", "parsDry"}, {"Maybe/func0", "parsMaybe"}, {"Any/func0", "parsAny"},
 	{"Seq/func0", "parsSeq"}, {"Child/func0", "parsChild"}, // gparsseq.go; behind them: parsMapP, parsParserChild, parsExact
@@ -1171,6 +1172,11 @@ func (c *pfCtx) assign(n *ast.AssignStmt) {
 			if n.Tok == token.ASSIGN && !known {
 				c.refuse(n, "assignment to %s, which is not a variable", id.Name)
 			}
+			if known && n.Tok == token.DEFINE && old.typ == "parser" && v.typ != "parser" && v.typ != "nil" {
+				// Until: `p, err := Trail(state)` in the literal, `p := AsParser(q)` in front of it: the types differ, so
+				// Go declares a NEW variable in the literal's scope that hides the captured parser from here on
+				known = false
+			}
 			typ := v.typ
 			if known {
 				typ = old.typ
@@ -1722,6 +1728,17 @@ func (g *pfGen) loadFunc(key, lean string) *pfFunc {
 						for _, cl := range n.Body.List {
 							cc := cl.(*ast.CaseClause)
 							if cc.Pos() <= fl.Pos() && fl.End() <= cc.End() {
+								return collect(cc.Body)
+							}
+						}
+					case *ast.TypeSwitchStmt:
+						// Until: the parser of the `default:` case of `switch v := q.(type)`
+						for _, cl := range n.Body.List {
+							cc := cl.(*ast.CaseClause)
+							if cc.Pos() <= fl.Pos() && fl.End() <= cc.End() {
+								if cc.List != nil {
+									refuse("go-pars: %s: the function literal is not in the default case of the type switch", key)
+								}
 								return collect(cc.Body)
 							}
 						}
